@@ -1608,10 +1608,17 @@ class Exec(Interp):
         if m is None:
             kind = "UNMODELLED"
             self.oblige("UNMODELLED", inst, bi, path, False, S, t.get("span"), {"callee": path})
+            for h in self.hooks:
+                h("inexact", interp=self, callee=path, why="no model", args=args, state=S, term=t)
             self.havoc_mut_args(S, args, site)
             return self.top_of_dest(S, inst, t, site)
         ctx = CallCtx(self, S, frame, inst, bi, t, r, args, site)
+        for h in self.hooks:
+            h("model_call", interp=self, callee=path, args=args, state=S, term=t)
         ret = m(ctx)
+        if ctx.inexact is not None and self.hooks:
+            for h in self.hooks:
+                h("inexact", interp=self, callee=path, why=ctx.inexact, args=args, state=S, term=t)
         if ret is not None:
             self.stamp(S, ret)
         return ret
@@ -1683,6 +1690,7 @@ class CallCtx:
         self.r = r
         self.args = args
         self.site = site
+        self.inexact = None  # set by a model that answers with less than it could know (unknown boolean, top)
 
     def deref(self, v, tag="d"):
         if isinstance(v, Ref):
@@ -1692,6 +1700,7 @@ class CallCtx:
         return v
 
     def top_ret(self):
+        self.inexact = "result not modelled"
         return self.I.top_of_dest(self.S, self.inst, self.t, self.site)
 
     def ret_ty(self):
